@@ -522,9 +522,11 @@ def install_methods(it):
         chars = args[1] if len(args) > 1 else None
         if isinstance(b, bytes):
             return b.strip(chars)
-        if chars != b'\0':
-            raise Unsupported('bytes.strip(%r) on symbolic bytes' % (chars,))
-        return it.p.facts.strip0(b)
+        if chars == b'\0':
+            return it.p.facts.strip0(b)
+        if isinstance(chars, bytes) and set(chars) == {0, 0x20}:
+            return it.p.facts.strip_pad(b)
+        raise Unsupported('bytes.strip(%r) on symbolic bytes' % (chars,))
 
     @M('bytes', 'startswith')
     def bytes_startswith(it, args, kw):
@@ -566,6 +568,15 @@ def install_methods(it):
         if isinstance(s, str):
             return s.strip(*args[1:])
         raise Unsupported('str.strip on symbolic str')
+
+    @M('str', 'ljust')
+    def str_ljust(it, args, kw):
+        s = args[0]
+        if isinstance(s, str) and all(not smt.is_z3(a) for a in args[1:]):
+            return s.ljust(*args[1:])
+        if len(args) == 2 and args[1] == 16:
+            return it.p.facts.ljust16(s)
+        raise Unsupported('str.ljust%r on symbolic str' % (tuple(args[1:]),))
 
     @M('str', 'join')
     def str_join(it, args, kw):
